@@ -7,6 +7,18 @@ BASE_NOTE = ("Trusted: Coq 8.16.1 kernel (full .vo build, Print Assumptions audi
              "the hand-written Gallina model is tied to /repo by the differential correspondence run (Rust harness built against /repo's working tree with "
              "--cfg rbx_dom_verif + the model extracted with ExtrOcamlBasic only), whose strength is bounded by the generator (distribution in the evidence). ")
 CLAIMED = {
+ "C02": ("Proved about the executable model of rbx_xml (Model/XmlEvents, XmlValues, XmlFile): character data survives writer -> emitter -> parser -> reader for every string (CDATA switch, `]]>` splitting, coalescing); "
+         "decimal text of every integer width and base64 read back exactly; per-type round trips read_xml(channel(write_xml v)) = v for String, Bool, Int32, Int64, Enum, BinaryString, Float32/64 (under the stated Display/FromStr law), "
+         "Vector3, BrickColor->Int32; the Name element of a class without a Name descriptor is read and kept; an explicit new value survives beside a migrating legacy property; refutation: Content::Object panics the writer. "
+         "The forest-level statement for arbitrary DOMs is NOT proved: it is decided per case by the xmlfile/xmlchannel differential correspondence (event lists, decoded DOMs and error classes identical to the implementation) "
+         "plus an implementation-side round-trip oracle against the source DOM for the retained option pairings.", "5/C02, notes/xml-format.md",
+         "Float text, Color3 quantisation, u8/255 and blake3 hashes are oracle tables supplied per case by the harness (a missing entry is TABLE-MISS, never a guess); xml-rs itself is not modelled (`channel` is validated on random event lists every run); "
+         "generated values are size-capped (48 keypoints, 3000 blob bytes, 4000 string bytes). `_pinned` theorems record pre-repair behaviour."),
+ "C05": ("Writer model: every document is one `roblox` element of version 4; referents are decimal numbers, never `null`; an empty reference is written `null`; a written SharedString enters the emitted dictionary. Reader model: forward references and the "
+         "dictionary are resolved; with IgnoreUnknown a property without a descriptor leaves the parse state (both rewrite queues) and the property map unchanged. Writer direction decided per case by Python's expat + tools/xmlcheck.py "
+         "(layout from docs/xml.md) on the real text and by the extracted decoder written from docs/xml.md (Spec/XmlSpec.v); reader direction by documents of an independent writer (UUID referents, shuffled properties, Meta/External, CDATA, "
+         "wrapped base64, alternative float spellings, dictionary first) against the logical DOM they describe.", "5/C05, notes/xml-format.md",
+         "Agreement of xspec_decode with xml_encode for arbitrary DOMs is not proved (checked per case); same oracle-table / xml-rs / size-cap assumptions as C02."),
  "C09": ("Invariant over all operation histories: `Rep` (concrete table = flattening of a duplicate-free rose forest) implies every clause of the property (rep_wf), "
          "and is preserved by each operation (refinement lemmas); the concrete model of dom.rs is compared with the real WeakDom after every step of generated histories, "
          "and a Rust oracle of the clause list runs on the real DOMs.", "5/C09, A3",
